@@ -1,5 +1,5 @@
 (* Entry points of the executable model used by the correspondence check (extracted). *)
-From RP Require Import Base Stream Target Socks Http Frames Frag MiluSyntax MiluParser MiluDoc MiluEval Dispatch MiluSound MiluWf MiluSoundLet Reload Lb Callbacks RtLeaf MiluRoundtrip MiluRoundtripWs Idle Config Registry Auth.
+From RP Require Import Base Stream Target Socks Http Frames Frag MiluSyntax MiluParser MiluDoc MiluEval Dispatch MiluSound MiluWf MiluSoundLet Reload Lb Callbacks RtLeaf MiluRoundtrip MiluRoundtripWs Idle Config Registry Auth QuicDgram.
 From RP.Gen Require Gen_ladder.
 
 Definition HFUEL : nat := 4000.   (* header lines per HTTP head in generated cases are far fewer *)
@@ -83,3 +83,12 @@ Definition x_wf_slb := wf_slb.
 
 (* the filler printer of C09_parse_print_roundtrip_any_filler: the k-th gap gets the k-th filler of the list *)
 Definition x_rt_print_ws (fs : list bytes) (t : tree) : bytes := m_print_ws (fun k => nth k fs [32]%N) t.
+
+(* the QUIC datagram hop (C10): the writes with the fragment ids the case gives them, the wire a schedule induces, and what
+   the peer's single reassembly table yields per datagram *)
+Definition x_dgram_hop (ovf : bool) (mtu : N) (ids : list N) (ws : list wr) (sched : list (nat * nat))
+  : outcome (list (outcome (option Frames.frame))) :=
+  sent <- send_all ovf mtu ids ws ;;
+  Ok (recv_wire ovf 3600000 0 fs_empty (wire_of sent sched)).
+Definition x_ids_of := ids_of.
+Definition x_drun := drun.
